@@ -198,6 +198,17 @@ Definition layerA (ws : list string) : string :=
       | Some f' => join "|" (map (fun l => show_cps (strip_cp l)) (split_lines_cp f'))
       | None => "PARSE"
       end
+  | ["checkcp"; v] =>
+      (* _check_string at code-point level (Unicode whitespace): N | S<cps> *)
+      if String.eqb v "N" then (if check_string_cp None then "ok" else "ValueError")
+      else match v with
+           | String _ rest =>
+               match read_cps rest with
+               | Some l => if check_string_cp (Some l) then "ok" else "ValueError"
+               | None => "PARSE"
+               end
+           | EmptyString => "PARSE"
+           end
   | ["checkstr"; v] =>
       match read_pyval v with Some v' => show_optexn (Args.check_string v') | None => "PARSE" end
   | "args" :: m :: sa :: vs =>
